@@ -277,8 +277,23 @@ func colliders3(th bool) []coll3 {
 			}
 		}
 	}
-	for _, nm := range cat.Closed3(true) {
-		m := nm.Mesh()
+	type scaledMesh struct {
+		name string
+		m    *model3d.Mesh
+		k    float64
+	}
+	var meshes []scaledMesh
+	for i, nm := range cat.Closed3(true) {
+		meshes = append(meshes, scaledMesh{nm.Name, nm.Mesh(), 1})
+		// the same surfaces with edges of about 1e-5 and 1e3 (exact power-of-two images): triangle tests must not
+		// depend on an absolute length
+		if th || i%3 == 0 {
+			meshes = append(meshes, scaledMesh{nm.Name + " x 2^-17", nm.Mesh().Scale(1.0 / (1 << 17)), 1.0 / (1 << 17)})
+			meshes = append(meshes, scaledMesh{nm.Name + " x 2^10", nm.Mesh().Scale(1 << 10), 1 << 10})
+		}
+	}
+	for _, nm := range meshes {
+		m := nm.m
 		mn, mx := m.Min(), m.Max()
 		f := meshField(m)
 		ts := m.TriangleSlice()
@@ -294,7 +309,7 @@ func colliders3(th bool) []coll3 {
 			}
 			return best
 		}
-		out = append(out, coll3{"MeshToCollider(" + nm.Name + ")", model3d.MeshToCollider(m), f, mn.Mid(mx), mx.Dist(mn) / 2, 0.2, true, 0, edges, nil})
+		out = append(out, coll3{"MeshToCollider(" + nm.name + ")", model3d.MeshToCollider(m), f, mn.Mid(mx), mx.Dist(mn) / 2, 0.2 * nm.k, true, 0, edges, nil})
 	}
 	// joined collider of two overlapping primitives: the surface is the union of both surfaces
 	s1, s2 := ref.Sphere(model3d.XYZ(0, 0, 0), 1), ref.Cylinder(model3d.XYZ(0.5, 0, -1), model3d.XYZ(0.7, 0.3, 1.2), 0.4)
@@ -585,6 +600,7 @@ func main() {
 			}
 		}
 		check2D(r)
+		ballStage(r, false)
 		r.NontrivialAdd(2)
 		r.Sample(c)
 		r.Finish()
@@ -602,5 +618,6 @@ func main() {
 	})
 	r.Isolate("colliders2", func() { check2D(r) })
 	r.Isolate("solid-lattice", func() { solidLattice(r, th) })
+	r.Isolate("feature-balls", func() { ballStage(r, th) })
 	r.Finish()
 }
